@@ -814,9 +814,17 @@ class PteraTransformer(NodeTransformer):
         After:
             x: int = _ptera_interact('x', int)
         """
+        ann = self._ann(node.annotation)
+        if (
+            node.value is None
+            and isinstance(node.target, ast.Name)
+            and not self.should_instrument(node.target.id, ann)
+        ):
+            # A declaration that nothing can provide a value for
+            return node
         return self.make_interaction(
             node.target,
-            self._ann(node.annotation),
+            ann,
             node.value and self.visit(node.value),
             orig=node,
         )
